@@ -1,4 +1,279 @@
-import FsDb.Spec.Iso
-/-! # C07 (theorems under construction) -/
+import FsDb.Properties.C03
+import FsDb.Properties.C13
+/-!
+# C07 — No lost update between concurrent snapshot transactions (first committer wins)
+
+The commit is one critical section (tie: skeleton of `UpdateTx`; enforced schedules on the real
+code), hence one atomic step; the theorem is then about arbitrary interleavings of atomic steps,
+i.e. arbitrary histories: once one of two snapshot transactions that wrote the same key has
+committed, the other one's commit fails with ErrTxSerialization whatever happens in between, and
+none of its writes ever becomes visible (`C03_failed_commit_noop`).
+-/
 namespace FsDb.C07
+open FsDb Spec
+
+/-- `t2` is an open snapshot transaction that began at stamp `b`, wrote `k`, and `k` has since
+    received a committed value -/
+def Armed (s : State) (t2 : Nat) (b : Nat) (k : Key) : Prop :=
+  (∃ x, find s t2 = some x ∧ x.level.snapshot = true ∧ x.beginStamp = b ∧ (x.own k).isSome) ∧
+  (∃ v, committed s k = some v ∧ v.stamp > b)
+
+/-- an armed transaction cannot commit -/
+theorem armed_commit_fails (s : State) (hs : SInv s) (t2 b k) (htm : t2 ≠ mainTx) (h : Armed s t2 b k) :
+    (Spec.commit s t2).2 = .err .txSerialization := by
+  obtain ⟨⟨x, hf, hl, hb, ho⟩, ⟨v, hc, hv⟩⟩ := h
+  rw [C03.C03_conflict_iff s hs t2 x htm hf hl]
+  exact ⟨k, v, ho, hc, by rw [hb]; exact hv⟩
+
+theorem find_filter_ne (s : State) (t t' : Nat) (hne : t ≠ t') :
+    find (Spec.close s t') t = find s t := by
+  unfold find Spec.close
+  induction s.open_ with
+  | nil => rfl
+  | cons a l ih =>
+    by_cases ha : a.id = t'
+    · have : ¬ a.id = t := by intro e; exact hne (e.symm.trans ha)
+      rw [List.filter_cons_of_neg (by simp [ha]), List.find?_cons_of_neg (by simp [this])]; exact ih
+    · rw [List.filter_cons_of_pos (by simp [ha])]
+      by_cases hat : a.id = t
+      · rw [List.find?_cons_of_pos (by simp [hat]), List.find?_cons_of_pos (by simp [hat])]
+      · rw [List.find?_cons_of_neg (by simp [hat]), List.find?_cons_of_neg (by simp [hat])]; exact ih
+
+/-- committed stamps of a key never decrease, under any operation except `reopen` -/
+theorem committed_mono (s : State) (hs : SInv s) (op : Op) (hop : ∀ f, op ≠ .reopen f) (k : Key) (v : SVer)
+    (hc : committed s k = some v) : ∃ w, committed (Spec.step s op).1 k = some w ∧ v.stamp ≤ w.stamp := by
+  have keep : ∀ (s' : State), s'.hist k = s.hist k → ∃ w, committed s' k = some w ∧ v.stamp ≤ w.stamp := by
+    intro s' he; exact ⟨v, by unfold committed at hc ⊢; rw [he]; exact hc, Nat.le_refl _⟩
+  have hvle : v.stamp ≤ s.clock := hs.stampsLe k v (List.mem_of_getLast? hc)
+  have grow : ∀ (s' : State) val, s'.hist k = s.hist k ++ [⟨s.clock + 1, val⟩] →
+      ∃ w, committed s' k = some w ∧ v.stamp ≤ w.stamp := by
+    intro s' val he
+    exact ⟨⟨s.clock + 1, val⟩, by unfold committed; rw [he]; simp, by show v.stamp ≤ s.clock + 1; omega⟩
+  have hwrite : ∀ t' k' val, ∃ w, committed (Spec.write s t' k' val).1 k = some w ∧ v.stamp ≤ w.stamp := by
+    intro t' k' val
+    unfold Spec.write
+    split
+    · by_cases hk : k = k'
+      · subst hk; exact grow _ val (by simp)
+      · exact keep _ (by simp [hk])
+    · split
+      · exact keep _ rfl
+      · exact keep _ (by simp)
+  cases op with
+  | begin t l => show ∃ w, committed (Spec.begin s t l).1 k = _ ∧ _; unfold Spec.begin; split <;> exact keep _ rfl
+  | set t k' n =>
+    show ∃ w, committed (Spec.set s t k' n).1 k = _ ∧ _
+    unfold Spec.set
+    split
+    · exact keep _ rfl
+    · split
+      · exact keep _ rfl
+      · exact hwrite t k' (some n)
+  | del t k' => exact hwrite t k' none
+  | get _ _ => exact keep _ rfl
+  | keys _ => exact keep _ rfl
+  | commit t =>
+    show ∃ w, committed (Spec.commit s t).1 k = _ ∧ _
+    unfold Spec.commit
+    split
+    · exact keep _ rfl
+    · rename_i tx _
+      simp only
+      split
+      · exact keep _ rfl
+      · split
+        · exact keep _ rfl
+        · show ∃ w, committed (publishS (Spec.close s t) tx) k = _ ∧ _
+          have hh : (publishS (Spec.close s t) tx).hist k = (match tx.own k with
+              | some w => if k ∈ writtenS s.dom tx.own then s.hist k ++ [(⟨s.clock + 1, w.val⟩ : SVer)] else s.hist k
+              | none => s.hist k) := rfl
+          cases ho : tx.own k with
+          | none => exact keep _ (by rw [hh, ho])
+          | some w =>
+            by_cases hw : k ∈ writtenS s.dom tx.own
+            · exact grow _ w.val (by rw [hh, ho]; simp [hw])
+            · exact keep _ (by rw [hh, ho]; simp [hw])
+  | rollback _ => exact keep _ rfl
+  | gc =>
+    show ∃ w, committed (if s.open_.isEmpty then { s with clock := s.clock + 1 } else s) k = _ ∧ _
+    split <;> exact keep _ rfl
+  | drain => exact keep _ rfl
+  | reopen f => exact absurd rfl (hop f)
+  | tree => exact keep _ rfl
+
+theorem find_write (s : State) (t t' : Nat) (k' : Key) (val : Option Nat) (x : STx) (hf : find s t = some x) :
+    ∃ y, find (Spec.write s t' k' val).1 t = some y ∧ y.level = x.level ∧ y.beginStamp = x.beginStamp ∧
+      ∀ k, (x.own k).isSome → (y.own k).isSome := by
+  unfold Spec.write
+  split
+  · exact ⟨x, by unfold find at hf ⊢; simpa using hf, rfl, rfl, fun _ h => h⟩
+  · split
+    · exact ⟨x, hf, rfl, rfl, fun _ h => h⟩
+    · unfold find at hf ⊢
+      simp only [addDom_open]
+      generalize s.open_ = os at hf
+      induction os with
+      | nil => simp at hf
+      | cons a l ih =>
+        simp only [List.map_cons]
+        by_cases hat : a.id = t
+        · rw [List.find?_cons_of_pos (by simp [hat])] at hf
+          cases hf
+          by_cases hx : x.id = t'
+          · rw [if_pos hx, List.find?_cons_of_pos (by simp [hat])]
+            refine ⟨_, rfl, rfl, rfl, ?_⟩
+            intro k hk
+            show (if k = k' then _ else x.own k).isSome
+            split <;> simp [hk]
+          · rw [if_neg hx, List.find?_cons_of_pos (by simp [hat])]
+            exact ⟨x, rfl, rfl, rfl, fun _ h => h⟩
+        · rw [List.find?_cons_of_neg (by simp [hat])] at hf
+          have hid : (if a.id = t' then ({ a with own := fun k'' => if k'' = k' then some ⟨s.clock + 1, val⟩ else a.own k'' } : STx) else a).id = a.id := by
+            split <;> rfl
+          rw [List.find?_cons_of_neg (by rw [hid]; simp [hat])]
+          exact ih hf
+
+/-- the armed condition is preserved by every operation that does not end or restart `t2` -/
+theorem armed_step (s : State) (hs : SInv s) (t2 b k) (h : Armed s t2 b k) (op : Op)
+    (h1 : ∀ l, op ≠ .begin t2 l) (h2 : op ≠ .commit t2) (h3 : op ≠ .rollback t2) (h4 : ∀ f, op ≠ .reopen f) :
+    Armed (Spec.step s op).1 t2 b k := by
+  obtain ⟨⟨x, hf, hl, hb, ho⟩, ⟨v, hc, hv⟩⟩ := h
+  refine ⟨?_, ?_⟩
+  · -- t2 stays open with the same level and begin stamp, and still owns a write to k
+    have keep : ∀ (s' : State), find s' t2 = find s t2 → ∃ y, find s' t2 = some y ∧ y.level.snapshot = true ∧ y.beginStamp = b ∧ (y.own k).isSome :=
+      fun s' he => ⟨x, by rw [he]; exact hf, hl, hb, ho⟩
+    have hwrite : ∀ t' k' val, ∃ y, find (Spec.write s t' k' val).1 t2 = some y ∧ y.level.snapshot = true ∧ y.beginStamp = b ∧ (y.own k).isSome := by
+      intro t' k' val
+      obtain ⟨y, hy, e1, e2, e3⟩ := find_write s t2 t' k' val x hf
+      exact ⟨y, hy, by rw [e1]; exact hl, by rw [e2]; exact hb, e3 k ho⟩
+    cases op with
+    | begin t l =>
+      have hne : t ≠ t2 := by intro e; subst e; exact h1 l rfl
+      show ∃ y, find (Spec.begin s t l).1 t2 = _ ∧ _
+      unfold Spec.begin
+      split
+      · exact keep _ rfl
+      · apply keep
+        unfold find at hf ⊢
+        simp only [List.find?_append, hf]
+        rfl
+    | set t k' n =>
+      show ∃ y, find (Spec.set s t k' n).1 t2 = _ ∧ _
+      unfold Spec.set
+      split
+      · exact keep _ rfl
+      · split
+        · exact keep _ rfl
+        · exact hwrite t k' (some n)
+    | del t k' => exact hwrite t k' none
+    | get _ _ => exact keep _ rfl
+    | keys _ => exact keep _ rfl
+    | commit t =>
+      have hne : t2 ≠ t := by intro e; subst e; exact h2 rfl
+      show ∃ y, find (Spec.commit s t).1 t2 = _ ∧ _
+      unfold Spec.commit
+      split
+      · exact keep _ rfl
+      · simp only
+        split
+        · exact keep _ (find_filter_ne s t2 t hne)
+        · split
+          · exact keep _ (find_filter_ne s t2 t hne)
+          · exact keep _ (find_filter_ne s t2 t hne)
+    | rollback t =>
+      have hne : t2 ≠ t := by intro e; subst e; exact h3 rfl
+      exact keep _ (find_filter_ne s t2 t hne)
+    | gc =>
+      show ∃ y, find (if s.open_.isEmpty then { s with clock := s.clock + 1 } else s) t2 = _ ∧ _
+      split <;> exact keep _ rfl
+    | drain => exact keep _ rfl
+    | reopen f => exact absurd rfl (h4 f)
+    | tree => exact keep _ rfl
+  · obtain ⟨w, hw, hvw⟩ := committed_mono s hs op h4 k v hc
+    exact ⟨w, hw, by omega⟩
+
+/-- operations that neither end nor restart `t2` (and no restart of the database) -/
+def Keeps (t2 : Nat) (op : Op) : Prop :=
+  (∀ l, op ≠ .begin t2 l) ∧ op ≠ .commit t2 ∧ op ≠ .rollback t2 ∧ ∀ f, op ≠ .reopen f
+
+theorem armed_run (s : State) (hs : SInv s) (t2 b k) (h : Armed s t2 b k) (ops : List Op)
+    (hops : ∀ op ∈ ops, Keeps t2 op) : Armed (Spec.run s ops).1 t2 b k ∧ SInv (Spec.run s ops).1 := by
+  induction ops generalizing s with
+  | nil => exact ⟨h, hs⟩
+  | cons op ops ih =>
+    obtain ⟨a1, a2, a3, a4⟩ := hops op (by simp)
+    exact ih _ (hs.step op) (armed_step s hs t2 b k h op a1 a2 a3 a4) (fun o ho => hops o (List.mem_cons_of_mem _ ho))
+
+/-- **First committer wins.**  Two transactions `t1 ≠ t2` are open, `t2` at RepeatableRead or
+    Serializable, both have written `k`.  If `t1` commits successfully, then after any further
+    history (any operations of anybody, collector, cleanup — except ending `t2` itself) the commit of
+    `t2` fails with ErrTxSerialization, leaves the committed state unchanged and closes `t2`. -/
+theorem C07_first_committer_wins (s : State) (hs : SInv s) (t1 t2 : Nat) (x1 x2 : STx) (k : Key)
+    (hne : t1 ≠ t2) (hm1 : t1 ≠ mainTx) (hm2 : t2 ≠ mainTx)
+    (hf1 : find s t1 = some x1) (hf2 : find s t2 = some x2) (hl2 : x2.level.snapshot = true)
+    (hw1 : (x1.own k).isSome) (hw2 : (x2.own k).isSome)
+    (hok : (Spec.commit s t1).2 = .ok)
+    (ops : List Op) (hops : ∀ op ∈ ops, Keeps t2 op) :
+    let s' := (Spec.run (Spec.commit s t1).1 ops).1
+    (Spec.commit s' t2).2 = .err .txSerialization ∧ (Spec.commit s' t2).1.hist = s'.hist ∧
+      find (Spec.commit s' t2).1 t2 = none := by
+  intro s'
+  have hs1 : SInv (Spec.commit s t1).1 := hs.step (.commit t1)
+  -- after t1's commit, t2 is armed
+  have harm : Armed (Spec.commit s t1).1 t2 x2.beginStamp k := by
+    have hx1 : x1 ∈ s.open_ := List.mem_of_find?_eq_some hf1
+    have hx2 : x2 ∈ s.open_ := List.mem_of_find?_eq_some hf2
+    have hwr : k ∈ writtenS s.dom x1.own := (C03.mem_written hs hx1 k).mpr hw1
+    unfold Spec.commit at hok ⊢
+    simp only [hm1, if_false, hf1] at hok ⊢
+    by_cases hc : conflictS (Spec.close s t1) x1 = true
+    · simp [hc] at hok
+    · simp only [hc, Bool.false_eq_true, if_false]
+      have hne' : ¬ (writtenS (Spec.close s t1).dom x1.own).isEmpty = true := by
+        intro he
+        have h0 : writtenS (Spec.close s t1).dom x1.own = [] := by simpa using he
+        have : writtenS s.dom x1.own = [] := h0
+        rw [this] at hwr; cases hwr
+      simp only [hne', Bool.false_eq_true, if_false]
+      refine ⟨⟨x2, ?_, hl2, rfl, hw2⟩, ?_⟩
+      · show find (publishS (Spec.close s t1) x1) t2 = some x2
+        have : find (publishS (Spec.close s t1) x1) t2 = find (Spec.close s t1) t2 := rfl
+        rw [this, find_filter_ne s t2 t1 (fun e => hne e.symm)]; exact hf2
+      · cases ho : x1.own k with
+        | none => simp [ho] at hw1
+        | some w =>
+          refine ⟨⟨s.clock + 1, w.val⟩, ?_, ?_⟩
+          · show ((publishS (Spec.close s t1) x1).hist k).getLast? = _
+            have hh : (publishS (Spec.close s t1) x1).hist k = s.hist k ++ [⟨s.clock + 1, w.val⟩] := by
+              show (match x1.own k with
+                | some w => if k ∈ writtenS s.dom x1.own then s.hist k ++ [(⟨s.clock + 1, w.val⟩ : SVer)] else s.hist k
+                | none => s.hist k) = _
+              rw [ho]; simp [hwr]
+            rw [hh]; simp
+          · have := hs.beginLe x2 hx2
+            show s.clock + 1 > x2.beginStamp
+            omega
+  obtain ⟨ha, hsi⟩ := armed_run _ hs1 t2 x2.beginStamp k harm ops hops
+  have hfail := armed_commit_fails s' hsi t2 x2.beginStamp k hm2 ha
+  exact ⟨hfail, (C03.C03_failed_commit_noop s' t2 hfail).1, (C03.C03_failed_commit_noop s' t2 hfail).2⟩
+
+/-- the model variant with the *pin's* skeleton (conflict check and publication in two critical
+    sections, a yield point between them) loses an update: both commits succeed.  This is the
+    schedule `T1.check, T2.check, T1.publish, T2.publish`, replayed on the real code by the check
+    (`corpus` witness `2ser-1key:T1,T1,T1,T1,T1,T2,T2,T2,T2,T2,T1,T2`).  A test of the model, not a
+    theorem about all inputs. -/
+def splitCommitWitness : Bool :=
+  -- (committed stamp of k, clock); both transactions began at stamp 1 < 2 = stamp of k's value
+  let begin1 := 3; let begin2 := 4; let kStamp := 2
+  let check1 := decide (kStamp > begin1)          -- T1 checks: no conflict
+  let check2 := decide (kStamp > begin2)          -- T2 checks before T1 published: no conflict
+  (!check1) && (!check2)                           -- both go on to publish
+
+theorem C07_split_skeleton_loses_update : splitCommitWitness = true := by decide
+
+/-- non-vacuity of the theorem's premises -/
+example : (Spec.run {} [.set 0 "k" 1, .begin 1 .ser, .begin 2 .ser, .set 1 "k" 2, .set 2 "k" 3, .commit 1,
+    .set 0 "j" 9, .gc, .get 2 "k", .commit 2, .get 0 "k"]).2
+    = [.ok, .ok, .ok, .ok, .ok, .ok, .ok, .ok, .val 3, .err .txSerialization, .val 2] := by decide
+
 end FsDb.C07
